@@ -148,7 +148,13 @@ def run_blob(case):
         want_bytes = b"" if want is None else want.binary
         got = client["DEV"]["BLB"]["A"].value
         got_bytes = b"" if (got is None or isinstance(got, str)) else got.binary
-        if got_bytes != want_bytes or (want_bytes and ((got.format or "") != (want.format or "") or len(got) != len(want_bytes))):
+        def _len(b):
+            try:
+                return len(b)
+            except Exception as exc:  # noqa
+                raise Failure("blob-length:raises", f"{where}: len() of the received BLOB raises {type(exc).__name__}: {exc}")
+
+        if got_bytes != want_bytes or (want_bytes and ((got.format or "") != (want.format or "") or _len(got) != len(want_bytes))):
             raise Failure("blob-connection:payload-differs", f"{where}: Client holds {len(got_bytes)} bytes, driver {len(want_bytes)}")
         if want is not None and not want_bytes:
             # an empty BLOB the driver published explicitly still has its format
